@@ -67,7 +67,7 @@ variants = {
     "hs-dl": dict(Hs=["h1"], Dl=["d1"], Cl=["k1"], HsCtxDeadline=True, PeerScript="PS_hs"),
     "hs-full": dict(Hs=["h1"], Rd=["r1"], Cl=["k1"], PeerScript="PS_hs_hs_cn"),
 }
-QUICK = [k for k in variants if k not in ("data-rwk", "hs-full", "data-fatal", "data-srvhs", "data-dl", "data-rkk", "hs-hkk")]
+QUICK = [k for k in variants if k not in ("data-rwk", "hs-full", "data-fatal", "data-srvhs", "data-dl", "data-rkk", "hs-hkk", "data-bad", "data-warn", "hs-hrk")]
 LIVEQUICK = ["hs-hk", "hs-fatal", "hs-cn", "data-dl13"]
 for k, v in variants.items():
     tier = "quick" if k in QUICK else "thorough"
@@ -99,7 +99,7 @@ gens = {
     "hs-dl": dict(Hs=["h1"], Dl=["d1"], HsCtxDeadline=True, PeerScript="PS_hs"),
 }
 for k, v in gens.items():
-    write("Lifecycle.%s.gen.%s" % (k, "thorough.cfg" if k == "data-rwkk" else "cfg"), dict(v, Record=True), "gen")
+    write("Lifecycle.%s.gen.%s" % (k, "thorough.cfg" if k in ("data-rwkk", "data-rwk", "hs-hkk") else "cfg"), dict(v, Record=True), "gen")
 # broken variants TLC must reject
 write("Lifecycle.broken.nolock.cfg", dict(D, Cl=["k1", "k2"], UseCloseLock=False), "safe", inv="CloseIdempotent CloseNotifyAtMostOnce")
 write("Lifecycle.broken.closedec.cfg", dict(D, Rd=["r1"], Cl=["k1"], PeerScript="PS_app_app", ReaderClosesDecrypted=False), "safe")
